@@ -7,7 +7,7 @@ CaseRec(n) == LET cfg == CaseCfg(n)
                   T == CaseTab(n) IN
   [id |-> n, cfg |-> cfg, table |-> T, must |-> SetToSeq(MustHost(cfg, T)), may |-> SetToSeq(MayHost(cfg, T)),
    srflxbase |-> SetToSeq(MaySrflxBase(cfg, T)), muxaddrs |-> SetToSeq({a.ip : a \in MuxAddrs(T)}),
-   portmin |-> PortMin, portmax |-> PortMaxOf(cfg.ports)]
+   rw |-> IF RewriteOn(cfg) THEN <<RwLocal(cfg), RwExt(cfg)>> ELSE <<>>, portmin |-> PortMin, portmax |-> PortMaxOf(cfg.ports)]
 ASSUME PrintT(<<"SPACE", NCfg, NTab, NCases>>)
 ASSUME \A k \in DOMAIN Picks : Picks[k] \in 0..(NCases - 1)
 ASSUME \A k \in DOMAIN Picks : OracleLaws(CaseCfg(Picks[k]), CaseTab(Picks[k])) \/ PrintT(<<"LAWBROKEN", Picks[k]>>)
